@@ -72,6 +72,9 @@ func round(s *slip.Scope, f slip.Object, args slip.List, depth int) slip.Values 
 	switch tn := num.(type) {
 	case slip.Fixnum:
 		d := div.(slip.Fixnum)
+		if d == 0 {
+			slip.DivisionByZeroPanic(s, depth, slip.Symbol("round"), args, "divide by zero")
+		}
 		q = tn / d
 		r = tn - q.(slip.Fixnum)*d
 		if r == slip.Fixnum(0) {
@@ -109,9 +112,15 @@ func round(s *slip.Scope, f slip.Object, args slip.List, depth int) slip.Values 
 		q = slip.Fixnum(math.RoundToEven(float64(q.(slip.DoubleFloat))))
 		r = tn - slip.DoubleFloat(q.(slip.Fixnum))*div.(slip.DoubleFloat)
 	case *slip.LongFloat:
+		if (*big.Float)(div.(*slip.LongFloat)).Sign() == 0 {
+			slip.DivisionByZeroPanic(s, depth, slip.Symbol("round"), args, "divide by zero")
+		}
 		syncFloatPrec(tn, div.(*slip.LongFloat))
 		var zq big.Float
 		_ = zq.Quo((*big.Float)(tn), (*big.Float)(div.(*slip.LongFloat)))
+		if zq.IsInf() {
+			slip.ArithmeticPanic(s, depth, slip.Symbol("round"), args, "the quotient is infinite")
+		}
 		bi, acc := zq.Int(nil)
 		if acc == big.Exact {
 			q = (*slip.Bignum)(bi)
